@@ -1,4 +1,4 @@
-import TunnoxModel.Proofs.C08
+import TunnoxModel.Proofs.C08RS
 import TunnoxModel.Gen.ConnState
 /-!
 # C08 — cross-node lookup finds a connected client at its current node
@@ -30,16 +30,16 @@ connection; (B) every other answer is "not connected" or an open connection of t
 node — in particular "not connected" once all its connections are closed; (C)/(D) `SendCommandToClient`
 routes accordingly. -/
 theorem lookup_finds_current_node (shape : Shape) (ttl nn : Nat) (clients : List Nat) (evs : List Ev) :
-    holds (effTTL ttl) nn clients evs (run ⟨repaired, shape, effTTL ttl⟩ nn clients evs) = true := by
+    holds (effTTL ttl) nn clients evs (run ⟨repaired, shape, effTTL ttl, 90000⟩ nn clients evs) = true := by
   have httl : 0 < effTTL ttl := by unfold effTTL; split <;> omega
-  exact holdsFrom_run (P := ⟨repaired, shape, effTTL ttl⟩) rfl httl nn clients evs _ _ Inv.init
+  exact holdsFrom_run (P := ⟨repaired, shape, effTTL ttl, 90000⟩) rfl httl nn clients evs _ _ Inv.init (RSInv.init _)
 
 /-! ## The same facts, stated on the state reached by a history -/
 
 /-- Reference bookkeeping and model state after a history, in lockstep. -/
 def reachFrom (P : Params) : SpecSt → St → List Ev → SpecSt × St
   | S, M, [] => (S, M)
-  | S, M, e :: es => reachFrom P (specStep P.ttl S (stepOk M e) e) (step P M e) es
+  | S, M, e :: es => reachFrom P (specStep P.ttl P.rsTtl S (stepOk M e) e) (step P M e) es
 
 def reach (P : Params) (evs : List Ev) : SpecSt × St := reachFrom P SpecSt.init St.init evs
 
@@ -89,10 +89,10 @@ theorem not_connected_after_last_close {P : Params} (hv : P.v = repaired) (httl 
 
 /-- The end of another connection — by any of the paths of `CloseKind`, whatever the entry point reports —
 leaves the reference obligation of `x` untouched. -/
-theorem latest_after_close {ttl : Nat} {S : SpecSt} {x : Nat} {c c' : Conn} {u : Nat} (k : CloseKind) (r : Bool)
+theorem latest_after_close {ttl rsTtl : Nat} {S : SpecSt} {x : Nat} {c c' : Conn} {u : Nat} (k : CloseKind) (r : Bool)
     (hl : LMap.lookup S.latest x = some (c, u)) (hne : c' ≠ c) :
-    LMap.lookup (specStep ttl S r (.close c' k)).latest x = some (c, u) := by
-  simp only [specStep]
+    LMap.lookup (specStep ttl rsTtl S r (.close c' k)).latest x = some (c, u) := by
+  simp only [specStep_latest, specStepCore]
   cases r with
   | false => exact hl
   | true =>
@@ -130,8 +130,8 @@ theorem late_cleanups_any_order {P : Params} (hv : P.v = repaired) (httl : 0 < P
       simp only [List.map_cons, reachFrom]
       refine ih _ _ (fun d hd => hne d (List.mem_cons_of_mem _ hd)) ?_ ?_
       · exact latest_after_close _ _ h1 (hne p (List.mem_cons_self ..))
-      · have : (specStep P.ttl S (stepOk M (.close p.1 p.2)) (.close p.1 p.2)).now = S.now := by
-          simp only [specStep]; split <;> rfl
+      · have : (specStep P.ttl P.rsTtl S (stepOk M (.close p.1 p.2)) (.close p.1 p.2)).now = S.now := by
+          simp only [specStep_now, specStepCore]; split <;> rfl
         rw [this]; exact h2
   have hk := key late (reach P evs).1 (reach P evs).2 hlate hl hu
   have he : reach P (evs ++ late.map (fun p => .close p.1 p.2)) =
@@ -216,7 +216,7 @@ theorem lookups_keep_findable {P : Params} (hv : P.v = repaired) (httl : 0 < P.t
       intro S M hq
       have he := hq e (List.mem_cons_self ..)
       simp only [reachFrom]
-      have hs : specStep P.ttl S (stepOk M e) e = S := by
+      have hs : specStep P.ttl P.rsTtl S (stepOk M e) e = S := by
         cases e <;> simp [isLookup] at he <;> rfl
       rw [hs]
       exact ih _ _ (fun d hd => hq d (List.mem_cons_of_mem _ hd))
@@ -226,6 +226,17 @@ theorem lookups_keep_findable {P : Params} (hv : P.v = repaired) (httl : 0 < P.t
   have hk := key qs (reach P evs).1 (reach P evs).2 hq
   rw [hk] at hinv
   exact find_live hv hinv hl hu
+
+theorem spec_tick (ttl rsTtl : Nat) (S : SpecSt) (r : Bool) (d : Nat) :
+    (specStep ttl rsTtl S r (.tick d)).latest = S.latest ∧ (specStep ttl rsTtl S r (.tick d)).now = S.now + d :=
+  ⟨rfl, rfl⟩
+
+theorem spec_hb_fresh {ttl rsTtl : Nat} {S : SpecSt} (r : Bool) {c : Conn} {u : Nat}
+    (hl : LMap.lookup S.latest c.client = some (c, u)) (hu : S.now ≤ u) :
+    (specStep ttl rsTtl S r (.hb c)).latest = LMap.insert S.latest c.client (c, S.now + ttl) ∧
+    (specStep ttl rsTtl S r (.hb c)).now = S.now := by
+  simp only [specStep_latest, specStep_now, specStepCore, hl, if_true, hu]
+  trivial
 
 /-- **Heartbeats keep the registration alive.**  After any history in which `x`'s registration on `c` is
 valid, any number of rounds "clock advances by at most `ttl`, then `c` sends a heartbeat" and a final advance of
@@ -253,18 +264,23 @@ theorem heartbeats_keep_alive {P : Params} (hv : P.v = repaired) (httl : 0 < P.t
       intro S M u hd h1 h2 _
       have hdu : S.now + d ≤ u := h2 d rfl
       simp only [List.flatMap_cons, List.cons_append, List.nil_append, reachFrom]
+      obtain ⟨t1, t2⟩ := spec_tick P.ttl P.rsTtl S (stepOk M (.tick d)) d
+      have h1' : LMap.lookup (specStep P.ttl P.rsTtl S (stepOk M (.tick d)) (.tick d)).latest c.client = some (c, u) := by
+        rw [t1, hcx]; exact h1
+      have hu' : (specStep P.ttl P.rsTtl S (stepOk M (.tick d)) (.tick d)).now ≤ u := by rw [t2]; exact hdu
+      obtain ⟨b1, b2⟩ := spec_hb_fresh (ttl := P.ttl) (rsTtl := P.rsTtl)
+        (stepOk (step P M (.tick d)) (.hb c)) h1' hu'
       refine ih _ _ (S.now + d + P.ttl) (fun e he => hd e (List.mem_cons_of_mem _ he)) ?_ ?_ ?_
-      · simp only [specStep, hcx ▸ h1, if_true, hdu]
-        rw [hcx]; exact LMap.lookup_insert_eq _ _ _
+      · rw [b1, t2, ← hcx]; exact LMap.lookup_insert_eq _ _ _
       · intro e he
         have := hd e (List.mem_cons_of_mem _ (by
           cases r with
           | nil => cases he
           | cons a t => simp at he; subst he; exact List.mem_cons_self ..))
-        simp only [specStep, hcx ▸ h1, if_true, hdu]
+        rw [b2, t2]
         omega
       · intro _
-        simp only [specStep, hcx ▸ h1, if_true, hdu]
+        rw [b2, t2]
         omega
   obtain ⟨u', hk1, hk2⟩ := key gaps (reach P evs).1 (reach P evs).2 u hg hl hfirst hnone
   have he : reach P h = reachFrom P
@@ -276,8 +292,8 @@ theorem heartbeats_keep_alive {P : Params} (hv : P.v = repaired) (httl : 0 < P.t
   have hinv := reach_inv hv httl h
   rw [he] at hinv ⊢
   refine find_live hv hinv (u := u') ?_ ?_
-  · simpa [reachFrom, specStep] using hk1
-  · simpa [reachFrom, specStep] using hk2
+  · simp only [reachFrom]; rw [(spec_tick _ _ _ _ _).1]; exact hk1
+  · simp only [reachFrom]; rw [(spec_tick _ _ _ _ _).2]; exact hk2
 
 /-! ## Ties to the Go source (T1/T2): a change of these functions breaks a proof here -/
 
@@ -496,10 +512,12 @@ theorem skel_handleHandshake : Gen.Skel.handleHandshake =
 
 /-- `handleHeartbeat` refreshes the records of the control connection. -/
 theorem skel_handleHeartbeat : Gen.Skel.handleHeartbeat =
-    ["clientRegistry.GetByConnID", "controlConn.UpdateActivity", "connStateStore.RefreshConnection"] := by decide
+    ["clientRegistry.GetByConnID", "controlConn.UpdateActivity", "cloudControl.EnsureClientOnline",
+     "connStateStore.RefreshConnection"] := by decide
 
 theorem skel_registry :
-    Gen.Skel.RemoveControlConnection = ["clientRegistry.GetByConnID", "clientRegistry.Remove"] ∧
+    Gen.Skel.RemoveControlConnection =
+      ["clientRegistry.GetByConnID", "clientRegistry.Remove", "cloudControl.DisconnectClientIfMatch"] ∧
     Gen.Skel.removeConnectionLocked = ["Stream.Close", "unindexLocked", "delete"] ∧
     Gen.Skel.unindexLocked = ["delete"] ∧
     Gen.Skel.UpdateAuth = ["mu.Lock", "mu.Unlock", "unindexLocked"] ∧
@@ -539,18 +557,18 @@ def reconnectLateCleanup : List Ev := [.open c0, .hs c0 true, .open c1, .hs c1 t
 /-- As found: `UnregisterConnection` deleted the index unconditionally — the late cleanup on node 0 erases
 the location registered by node 1. -/
 theorem unconditional_delete_witness :
-    holds 1000 2 [7] reconnectLateCleanup (run ⟨⟨false, true, true⟩, .str, 1000⟩ 2 [7] reconnectLateCleanup) = false := by
+    holds 1000 2 [7] reconnectLateCleanup (run ⟨⟨false, true, true⟩, .str, 1000, 90000⟩ 2 [7] reconnectLateCleanup) = false := by
   decide
 
 /-- As found: heartbeats did not refresh the records — a client connected for longer than the lifetime vanishes. -/
 theorem no_refresh_witness :
     holds 1000 2 [7] [.open c0, .hs c0 true, .tick 600, .hb c0, .tick 600]
-      (run ⟨⟨true, false, true⟩, .str, 1000⟩ 2 [7] [.open c0, .hs c0 true, .tick 600, .hb c0, .tick 600]) = false := by
+      (run ⟨⟨true, false, true⟩, .str, 1000, 90000⟩ 2 [7] [.open c0, .hs c0 true, .tick 600, .hb c0, .tick 600]) = false := by
   decide
 
 /-- As found: the in-memory backend hands back the `*Info`, which the decoder refused. -/
 theorem pointer_shape_witness :
-    holds 1000 2 [7] [.open c0, .hs c0 true] (run ⟨⟨true, true, false⟩, .ptr, 1000⟩ 2 [7] [.open c0, .hs c0 true]) = false := by
+    holds 1000 2 [7] [.open c0, .hs c0 true] (run ⟨⟨true, true, false⟩, .ptr, 1000, 90000⟩ 2 [7] [.open c0, .hs c0 true]) = false := by
   decide
 
 /-! ## Known finding `index-check-then-act` (storage-call granularity — finer than the events of the property)
@@ -560,7 +578,7 @@ storage call.  When another node registers the client between the two calls, the
 harness forces these schedules with gated store handles (`sched` cases); no storage backend offers an atomic
 compare-and-delete (the hybrid storage does not even forward `CompareAndSwap`), so this is recorded, not repaired. -/
 
-def P0 : Params := ⟨repaired, .str, 1000⟩
+def P0 : Params := ⟨repaired, .str, 1000, 90000⟩
 
 /-- Client 7 registered on `c0` (node 0). -/
 def sA : Store := registerConnection P0 0 0 FMap.empty ⟨c0, 7, 0, true, 0⟩
@@ -582,6 +600,106 @@ theorem index_check_then_act_witness :
 theorem refresh_check_then_act_witness :
     findClientNode P0 0 (set 0 1000 sB (.client 7) (.id c0)) 7 = .found 0 c0 := by decide
 
+/-! ## The cloud runtime state (`client.Service`): the same question asked of `tunnox:runtime:client:state:<client>` -/
+
+theorem reachFrom_rsinv {P : Params} (hv : P.v = repaired) (httl : 0 < P.ttl) :
+    ∀ (evs : List Ev) (S : SpecSt) (M : St), Inv S M → RSInv P.rsTtl S M →
+      RSInv P.rsTtl (reachFrom P S M evs).1 (reachFrom P S M evs).2 := by
+  intro evs
+  induction evs with
+  | nil => intro S M _ hr; exact hr
+  | cons e es ih => intro S M h hr; exact ih _ _ (h.step hv httl e) (hr.step h e)
+
+theorem reach_rsinv {P : Params} (hv : P.v = repaired) (httl : 0 < P.ttl) (evs : List Ev) :
+    RSInv P.rsTtl (reach P evs).1 (reach P evs).2 := reachFrom_rsinv hv httl evs _ _ Inv.init (RSInv.init _)
+
+/-- (A') After any history: while the latest completed control handshake of `x` (on `c`) is kept alive — handshake
+/ heartbeats at most the state's lifetime apart, `c` not closed, not ended by the server — every node reading
+the runtime state gets `(c.node, c)`: the connection of THAT handshake, also after a reconnect to the same node. -/
+theorem runtime_state_names_latest {P : Params} (hv : P.v = repaired) (httl : 0 < P.ttl) (evs : List Ev)
+    {x : Nat} {c : Conn} {u : Nat}
+    (hl : LMap.lookup (reach P evs).1.latestRS x = some (c, u)) (hu : (reach P evs).1.now ≤ u) :
+    rsGet (reach P evs).2.now (reach P evs).2.rstore x = some (c.node, c) := by
+  have h := reach_inv hv httl evs
+  obtain ⟨_, _, _, _, _, hlive⟩ := (reach_rsinv hv httl evs).live x c u hl
+  obtain ⟨u', hu', hlk⟩ := hlive hu
+  exact rsGet_of_lookup hlk (by rw [← h.now_eq]; show (reach P evs).1.now ≤ u'; omega)
+
+/-- (B') After any history: the runtime state of `x` is absent or names a connection of `x` with its own node that
+is still open — unless the server ended a connection of `x` on its own since `x`'s last handshake (`loose`: duplicate-login
+eviction, shutdown; see `runtime_state_survives_shutdown_witness`).  In particular: once the client's last
+connection is closed by any `CloseKind`, the state is gone. -/
+theorem runtime_state_never_names_closed {P : Params} (hv : P.v = repaired) (httl : 0 < P.ttl) (evs : List Ev)
+    {x n : Nat} {d : Conn} (hg : rsGet (reach P evs).2.now (reach P evs).2.rstore x = some (n, d)) :
+    d.client = x ∧ n = d.node ∧ (d ∈ (reach P evs).1.opened ∨ (reach P evs).1.loose x = true) := by
+  have h := reach_inv hv httl evs
+  obtain ⟨v, hlk, hvis, hw⟩ := rsGet_some hg
+  obtain ⟨h1, h2, _, h4⟩ := (reach_rsinv hv httl evs).sound x v hlk hvis
+  injection hw with e1 e2
+  subst e1; subst e2
+  refine ⟨h2, h1, ?_⟩
+  rcases h4 with h4 | ⟨h4, _⟩
+  · exact Or.inr h4
+  · exact Or.inl (h.conns_opened _ _ ((h.nodeOk _).ctrl_conns _ h4))
+
+/-- **A completed handshake makes the runtime state name THAT connection** — whatever it named before (another
+connection on the same node included), for a full lifetime. -/
+theorem handshake_updates_runtime_state {P : Params} (hv : P.v = repaired) (httl : 0 < P.ttl) (evs : List Ev)
+    (c : Conn) (hok : stepOk (reach P evs).2 (.hs c true) = true) (hx : 0 < c.client) (dt : Nat) (hdt : dt ≤ P.rsTtl) :
+    rsGet (reach P (evs ++ [.hs c true, .tick dt])).2.now (reach P (evs ++ [.hs c true, .tick dt])).2.rstore c.client
+      = some (c.node, c) := by
+  refine runtime_state_names_latest hv httl _ (u := (reach P evs).1.now + P.rsTtl) ?_ ?_
+  · show LMap.lookup (reachFrom P _ _ (evs ++ [.hs c true, .tick dt])).1.latestRS c.client = _
+    rw [reachFrom_append]
+    have hok' : stepOk (reachFrom P SpecSt.init St.init evs).2 (.hs c true) = true := hok
+    simp only [reachFrom, specStep_latestRS, specLatestRS, hok', Bool.true_and, gt_iff_lt, hx, decide_true, if_true,
+      specStep_now]
+    exact LMap.lookup_insert_eq _ _ _
+  · show (reachFrom P _ _ (evs ++ [.hs c true, .tick dt])).1.now ≤ _
+    rw [reachFrom_append]
+    have hok' : stepOk (reachFrom P SpecSt.init St.init evs).2 (.hs c true) = true := hok
+    simp only [reachFrom, specStep_now, specStepCore, hok', Bool.true_and, gt_iff_lt, hx, decide_true, if_true]
+    show (reach P evs).1.now + dt ≤ (reach P evs).1.now + P.rsTtl
+    omega
+
+/-- Non-vacuity / the seeded scenario: registered on `c0`, reconnects to the SAME node on `⟨0,7,1⟩` before the node
+noticed: the runtime state names the new connection; closing it takes the client offline; the old connection's
+late cleanup changes nothing. -/
+example :
+    let P : Params := ⟨repaired, .str, 1000, 90000⟩
+    let c2 : Conn := ⟨0, 7, 1⟩
+    rsGet (reach P [.open c0, .hs c0 true, .open c2, .hs c2 true]).2.now
+      (reach P [.open c0, .hs c0 true, .open c2, .hs c2 true]).2.rstore 7 = some (0, c2) ∧
+    rsGet (reach P [.open c0, .hs c0 true, .open c2, .hs c2 true, .close c0 .eof]).2.now
+      (reach P [.open c0, .hs c0 true, .open c2, .hs c2 true, .close c0 .eof]).2.rstore 7 = some (0, c2) ∧
+    rsGet (reach P [.open c0, .hs c0 true, .open c2, .hs c2 true, .close c2 .eof]).2.now
+      (reach P [.open c0, .hs c0 true, .open c2, .hs c2 true, .close c2 .eof]).2.rstore 7 = none := by decide
+
+/-- Known finding `runtime-state-survives-server-side-end`: session manager shutdown (and the caller-less
+`KickOldControlConnection`) empty the registry without `DisconnectClientIfMatch`; the adapters' `CloseConnection` calls
+that follow find no registered connection, so the runtime state keeps naming the closed connection until its TTL.
+(`connstate` is cleaned: `CloseConnection` unregisters unconditionally.) -/
+theorem runtime_state_survives_shutdown_witness :
+    let P : Params := ⟨repaired, .str, 1000, 90000⟩
+    rsGet (reach P [.open c0, .hs c0 true, .shutdown 0, .close c0 .eof]).2.now
+      (reach P [.open c0, .hs c0 true, .shutdown 0, .close c0 .eof]).2.rstore 7 = some (0, c0) ∧
+    findClientNode P (reach P [.open c0, .hs c0 true, .shutdown 0, .close c0 .eof]).2.now
+      (reach P [.open c0, .hs c0 true, .shutdown 0, .close c0 .eof]).2.store 7 = .notFound := by decide
+
+/-- Source ties of the runtime-state path: lifetime and key family, who calls what, in which order. -/
+theorem runtime_state_ties :
+    Gen.constants.TTLClientState * 1000 = 90000 ∧
+    Gen.constants.KeyPrefixRuntimeClientState ∈ Gen.hybrid.DefaultConfig.SharedPrefixes ∧
+    Gen.Skel.updateClientRuntimeState = ["cloudControl.ConnectClient"] ∧
+    Gen.Skel.Client_ConnectClient =
+      ["stateRepo.GetState", "stateRepo.SetState", "stateRepo.AddToNodeClients", "publishClientOnlineEvent"] ∧
+    Gen.Skel.Client_EnsureClientOnline =
+      ["stateRepo.GetState", "state.Touch", "stateRepo.SetState", "stateRepo.SetState", "stateRepo.AddToNodeClients"] ∧
+    Gen.Skel.Client_DisconnectClientIfMatch =
+      ["stateRepo.GetState", "stateRepo.RemoveFromNodeClients", "stateRepo.DeleteState", "publishClientOfflineEvent"] ∧
+    Gen.Skel.StateRepo_GetState = ["storage.Get"] ∧
+    Gen.Skel.StateRepo_SetState = ["state.Validate", "storage.Set"] := by decide
+
 /-! ## The application-level deadline `ExpiresAt` (re-checked by `GetConnectionState`) follows the last registration -/
 
 /-- **Authenticating again on the same connection renews the registration.**  After any history — in particular
@@ -597,9 +715,13 @@ theorem rehandshake_renews {P : Params} (hv : P.v = repaired) (httl : 0 < P.ttl)
   have hinv := reach_inv hv httl (evs ++ [.hs c true, .tick dt])
   rw [he] at hinv ⊢
   refine find_live hv hinv (u := (reach P evs).1.now + P.ttl) ?_ ?_
-  · simp only [reachFrom, specStep, hok, Bool.true_and, gt_iff_lt, hx, decide_true, if_true]
+  · simp only [reachFrom]
+    rw [(spec_tick _ _ _ _ _).1]
+    simp only [specStep_latest, specStepCore, hok, Bool.true_and, gt_iff_lt, hx, decide_true, if_true]
     exact LMap.lookup_insert_eq _ _ _
-  · simp only [reachFrom, specStep, hok, Bool.true_and, gt_iff_lt, hx, decide_true, if_true]
+  · simp only [reachFrom]
+    rw [(spec_tick _ _ _ _ _).2]
+    simp only [specStep_now, specStepCore, hok, Bool.true_and, gt_iff_lt, hx, decide_true, if_true]
     omega
 
 /-- The re-check is live in the model: a record whose `ExpiresAt` has passed is treated as absent although the
@@ -611,30 +733,30 @@ example : getConnectionState P0 500
 
 /-- Non-vacuity of `rehandshake_renews`: registered, kept alive by heartbeats beyond one lifetime (1000 ms),
 authenticates again on the same connection at 1200 ms, still found 900 ms later. -/
-example : findClientNode ⟨repaired, .str, 1000⟩
-    (reach ⟨repaired, .str, 1000⟩ ([.open c0, .hs c0 true, .tick 600, .hb c0, .tick 600, .hb c0] ++ [.hs c0 true, .tick 900])).2.now
-    (reach ⟨repaired, .str, 1000⟩ ([.open c0, .hs c0 true, .tick 600, .hb c0, .tick 600, .hb c0] ++ [.hs c0 true, .tick 900])).2.store 7
+example : findClientNode ⟨repaired, .str, 1000, 90000⟩
+    (reach ⟨repaired, .str, 1000, 90000⟩ ([.open c0, .hs c0 true, .tick 600, .hb c0, .tick 600, .hb c0] ++ [.hs c0 true, .tick 900])).2.now
+    (reach ⟨repaired, .str, 1000, 90000⟩ ([.open c0, .hs c0 true, .tick 600, .hb c0, .tick 600, .hb c0] ++ [.hs c0 true, .tick 900])).2.store 7
       = .found 0 c0 := by decide
 
 /-! ## Non-vacuity -/
 
 /-- The history above ends with clause (A) active: the reference demands `(node 1, c1)` … -/
-example : LMap.lookup (reach ⟨repaired, .ptr, 1000⟩ reconnectLateCleanup).1.latest 7 = some (c1, 1000) := by decide
+example : LMap.lookup (reach ⟨repaired, .ptr, 1000, 90000⟩ reconnectLateCleanup).1.latest 7 = some (c1, 1000) := by decide
 
 /-- … and that is what the repaired model answers on every node, routing included. -/
-example : (run ⟨repaired, .ptr, 1000⟩ 2 [7] reconnectLateCleanup).getLast? =
-    some (true, [(7, [(.found 1 c1, .cross 1), (.found 1 c1, .loc)])]) := by decide
+example : (run ⟨repaired, .ptr, 1000, 90000⟩ 2 [7] reconnectLateCleanup).getLast? =
+    some (true, [(7, [(.found 1 c1, .cross 1, some (1, c1)), (.found 1 c1, .loc, some (1, c1))])]) := by rfl
 
 /-- `holds` is not trivially true: an observation that still names the old node fails. -/
 example : holds 1000 2 [7] [.open c0, .hs c0 true, .close c0 .eof]
-    [(true, [(7, [(.notFound, .none_), (.notFound, .none_)])]),
-     (true, [(7, [(.found 0 c0, .loc), (.found 0 c0, .cross 0)])]),
-     (true, [(7, [(.found 0 c0, .none_), (.found 0 c0, .cross 0)])])] = false := by decide
+    [(true, [(7, [(.notFound, .none_, none), (.notFound, .none_, none)])]),
+     (true, [(7, [(.found 0 c0, .loc, some (0, c0)), (.found 0 c0, .cross 0, some (0, c0))])]),
+     (true, [(7, [(.found 0 c0, .none_, none), (.found 0 c0, .cross 0, none)])])] = false := by decide
 
 /-- Hypotheses of `heartbeats_keep_alive` are inhabited: two heartbeat rounds 600 ms apart, lifetime 1000 ms. -/
-example : findClientNode ⟨repaired, .str, 1000⟩
-    (reach ⟨repaired, .str, 1000⟩ ([.open c0, .hs c0 true] ++ [.tick 600, .hb c0, .tick 600, .hb c0] ++ [.tick 900])).2.now
-    (reach ⟨repaired, .str, 1000⟩ ([.open c0, .hs c0 true] ++ [.tick 600, .hb c0, .tick 600, .hb c0] ++ [.tick 900])).2.store 7
+example : findClientNode ⟨repaired, .str, 1000, 90000⟩
+    (reach ⟨repaired, .str, 1000, 90000⟩ ([.open c0, .hs c0 true] ++ [.tick 600, .hb c0, .tick 600, .hb c0] ++ [.tick 900])).2.now
+    (reach ⟨repaired, .str, 1000, 90000⟩ ([.open c0, .hs c0 true] ++ [.tick 600, .hb c0, .tick 600, .hb c0] ++ [.tick 900])).2.store 7
       = .found 0 c0 := by decide
 
 end Tunnox.C08
